@@ -47,7 +47,7 @@ check("C02", "acknowledged writes survive a crash; recovery yields a history pre
     ob("VerifC02_CrashDuringMaintenance", "pkg/engine", "history put K1; flush (log rotation, SSTable write+rename); overwrite K0; [delete K1] on a database holding K0, synchronous logging; the process dies at any file-system step (both crash models, torn writes); recovered state = state after a prefix containing every acknowledged write; then a write, clean close and reopen",
        "4-step history, memtable 1 B or default, every crash point", q={"budget_s": 500}),
     ob("VerifC02_CleanCloseReopen", "pkg/engine", "all three log sync modes; programs of small puts, deletes, a put at a log-fragment boundary (+-1), batches of 2/3 x 30 KiB (below/above the 64 KiB log buffer); clean close; reopen: state equals the pre-close state",
-       "<=2 steps, 3 keys", "<=3 steps", q={"budget_s": 300}, t={"budget_s": 1800}),
+       "<=2 steps, 3 keys", "<=3 steps", q={"budget_s": 300}, t={"budget_s": 900}),
 ], [SIMFS, CLOCK, HASH, BLOOM, RAND, LOG, TIERA, "crash counterexamples are replayed natively by materialising the post-crash directory image and running the native recovery on it"],
    ["directory-entry durability", "media errors"])
 
@@ -64,7 +64,7 @@ check("C03", "transactions are all-or-nothing", [
 
 check("C04", "transactions are serializable with respect to each other", [
     ob("VerifC04_TwoTxSerializable", "pkg/engine", "two concurrent transactions (read-only: read both keys; read-write: read, put/delete, read back, commit/rollback) on the real EngineFacade: every explored interleaving's reads and final state equal one of the two serial orders, consistent with real time",
-       "2 transactions x 18 shapes each over 2 keys, symbolic values, preemption bound 1", "preemption bound 2", q=P1, t={"preempt": 2, "budget_s": 3000}, no_validate=True),
+       "2 transactions x 18 shapes each over 2 keys, symbolic values, preemption bound 1", "preemption bound 2", q=P1, t={"preempt": 2, "budget_s": 1200}, no_validate=True),
     ob("VerifC17_TxCallSequences", "pkg/transaction", "lock discipline of one transaction: isolation lock held in the right mode from begin to the first finish, every storage access under it, released exactly once; own writes read back; nothing reaches storage before commit",
        "<=4 calls, 2 keys", "<=5 calls"),
 ], [SIMFS, CLOCK, HASH, BLOOM, JSON, RAND, LOG, "Tier B: schedules enumerated exhaustively up to the preemption bound; data symbolic in every schedule"], ["more than 2 concurrent transactions", "writes issued outside transactions (excluded by the property)"])
@@ -82,7 +82,7 @@ check("C05", "scans: exactly the live keys, once, in order, within bounds", [
 
 check("C06", "concurrent gets, puts and deletes are linearizable", [
     ob("VerifC06_ReadsDuringFlush", "pkg/engine/storage", "writer (overwrite or delete) || reader (two gets) || the real background flush goroutine (|| an explicit flush in thorough) with a 1-byte memtable: each read returns the old or the new state, reads do not go back in time, a read after the write sees it, the write is acknowledged and in effect at the end",
-       "3 threads, preemption bound 1, background flush loop started as a thread", "4 threads (explicit flush), preemption bound 1", q={"preempt": 1, "background": ["backgroundFlush"], "budget_s": 400}, t={"preempt": 1, "background": ["backgroundFlush"], "budget_s": 3000}, no_validate=True),
+       "3 threads, preemption bound 1, background flush loop started as a thread", "4 threads (explicit flush), preemption bound 1", q={"preempt": 1, "background": ["backgroundFlush"], "budget_s": 400}, t={"preempt": 1, "background": ["backgroundFlush"], "budget_s": 1200}, no_validate=True),
     ob("VerifC06_ErrorMeansNoEffect", "pkg/engine/storage", "1-byte memtable, table budget 1-2, no flusher keeping up: sequences of puts/deletes; a reported success took effect, a reported error took none",
        "<=4 operations on one key"),
     ob("VerifC06_PutVsFlush", "pkg/engine/storage", "one client Put racing FlushMemTables (MemTableSize=1), then a sequential Get: success => visible, error => no effect; data races on the way are reported",
@@ -91,9 +91,9 @@ check("C06", "concurrent gets, puts and deletes are linearizable", [
 
 check("C07", "no race, crash or hang under concurrent use", [
     ob("VerifC07_Pairs", "pkg/engine", "every unordered pair of thirteen EngineFacade entry points from two goroutines: no data race, panic, deadlock; both return",
-       "91 pairs of 13 entry points (put, get, delete, scan, tx, flush, stats, batch, is-deleted, read-only tx, tx with a refused commit, compaction, range scan + compaction stats), preemption bound 1", "preemption bound 2", q=P1, t={"preempt": 2, "budget_s": 3000}, no_validate=True, termination=True),
+       "91 pairs of 13 entry points (put, get, delete, scan, tx, flush, stats, batch, is-deleted, read-only tx, tx with a refused commit, compaction, range scan + compaction stats), preemption bound 1", "preemption bound 2", q=P1, t={"preempt": 2, "budget_s": 1200}, no_validate=True, termination=True),
     ob("VerifC07_WritersVsBackgroundFlush", "pkg/engine", "two clients writing twice each into an engine with a 1-byte memtable while the real background flush goroutine runs as a third thread (explicit flush as a fourth in thorough): no race/panic/deadlock, every call returns, last acknowledged writes readable",
-       "3 threads, preemption bound 1, background flush loop started as a thread", "4 threads", q={"preempt": 1, "background": ["backgroundFlush"], "budget_s": 500}, t={"preempt": 1, "background": ["backgroundFlush"], "budget_s": 3000}, no_validate=True, termination=True),
+       "3 threads, preemption bound 1, background flush loop started as a thread", "4 threads", q={"preempt": 1, "background": ["backgroundFlush"], "budget_s": 500}, t={"preempt": 1, "background": ["backgroundFlush"], "budget_s": 1200}, no_validate=True, termination=True),
     ob("VerifC07_TombstoneTracker", "pkg/compaction", "TombstoneTracker.AddTombstone || ShouldKeepTombstone", "2 threads, preemption bound 1", q=P1, no_validate=True),
 ], [SIMFS, CLOCK, HASH, BLOOM, RAND, LOG, "Tier B: vector-clock race detector over the interpreter's memory cells; schedules up to the preemption bound"], ["Close concurrent with other calls", ">2 simultaneous calls"])
 
@@ -130,27 +130,27 @@ check("C11", "an SSTable reads back exactly what was written", [
     ob("VerifC11_GetAcrossBlocks", "pkg/sstable", "two data blocks (64 KiB value closes the first): point lookups of every written key and of an absent key", "2 blocks, <=2 small entries per block", q={"budget_s": 300}),
     ob("VerifC11_SeekAcrossBlocks", "pkg/sstable", "two data blocks: Seek(t) + Next*", "2 blocks", q={"budget_s": 300}),
     ob("VerifC11_FlipOneByte", "pkg/sstable", "one byte at any position of a finished table (data block, restart array, trailer, bloom section, index block, footer) replaced by a symbolic different value: open/iterate/seek/get fail or yield only written entries, ascending; no panic",
-       "tables of 1-2 entries; every file position except the interior of the bloom bit array (5 representatives); every replacement value", "tables of 1-3 entries", q={"budget_s": 400}, t={"budget_s": 1800}),
+       "tables of 1-2 entries; every file position except the interior of the bloom bit array (5 representatives); every replacement value", "tables of 1-3 entries", q={"budget_s": 400}, t={"budget_s": 900}),
     ob("VerifC11_BloomNoFalseNegative", "pkg/bloom_filter", "real Add/Contains/SaveToFile/LoadBloomFilter on a 20-bit filter: no false negative", "<=2 keys, 20 bits, 7 hash functions"),
 ], [SIMFS, CLOCK, HASH, BLOOM, LOG, TIERA], ["keys > 64 KiB (uint16 length field)", ">2 blocks", "multi-byte damage"])
 
 check("C12", "compaction preserves content; deleted keys stay deleted", [
     ob("VerifC12_CompactPreservesView", "pkg/compaction", "2-3 real SSTables with symbolic levels and tombstone placement, one compaction cycle, merged view before = after", "2-3 files, 2 keys, levels 0-1", q={"budget_s": 400}),
     ob("VerifC12_CompactionInWorkload", "pkg/engine", "put+flush / delete+flush / triggered compaction / retire-flushed-logs+reopen steps on an engine with a level-0 trigger of 2: after every step and at the end each key reads as its latest write says, also from the compacted files after a reopen with the old logs gone",
-       "2..4 steps, writes on 1 of 2 keys, probe over both", "2..5 steps, writes on both keys", q={"budget_s": 400}, t={"budget_s": 2400}),
+       "2..4 steps, writes on 1 of 2 keys, probe over both", "2..5 steps, writes on both keys", q={"budget_s": 400}, t={"budget_s": 1200}),
 ], [SIMFS, CLOCK, HASH, BLOOM, JSON, LOG, TIERA], ["range compaction (CompactRange)", "crash during compaction", "more than 3 input files in the directory-level harness"])
 
 check("C13", "a replica applies the primary's log in order, exactly once", [
     ob("VerifC13_ApplyStepInductive", "pkg/replication", "one step of WALBatchApplier.ApplyEntries from an arbitrary cursor with an arbitrary batch and an apply function failing at a symbolic index", "<=3 entries per batch"),
     ob("VerifC13_DeliverySchedules", "pkg/replication", "a real Replica fed stream messages that are arbitrary sub-ranges of the primary log (duplicates, reordering, gaps, overlaps), optionally compressed, with one transient apply failure: applied history is always a prefix of the log, reported sequence monotone and never ahead, gaps answered by a retransmission request",
-       "log of <=2 operations, <=2 messages, codecs NONE/ZSTD, failure at call 0..2", "log of <=3 operations, <=3 messages, codecs NONE/ZSTD/SNAPPY", t={"budget_s": 1500}),
+       "log of <=2 operations, <=2 messages, codecs NONE/ZSTD, failure at call 0..2", "log of <=3 operations, <=3 messages, codecs NONE/ZSTD/SNAPPY", t={"budget_s": 900}),
     ob("VerifC13_SerializeRoundTrip", "pkg/replication", "Deserialize(Serialize(e)) = e for put/delete/merge with key/value lengths 0-2 and arbitrary sequence numbers; a payload cut at any point is rejected or denotes the same operation",
        "key/value lengths 0..2, every cut position"),
 ], [LOG, TIERA, "compression codecs: opaque pair Decompress(Compress(x)) = x, anything without the codec's frame magic is invalid"], ["codec internals", "gRPC framing", "the replica's timer-driven state machine (the data path is driven through processEntriesWithoutStateTransitions)"])
 
 check("C14", "a connected replica converges (reduced form: data path under an ideal link)", [
     ob("VerifC14_DataPathConverges", "pkg/replication", "primary program (puts, deletes, a 2-entry batch, a flush) with a replica session joining before/between/after; real initial-send, push, poll and resend paths into a recording stream; messages fed in order to a real Replica applying through EngineApplier into a second engine with acks; link drained; probe key reads equal on both sides",
-       "<=2 primary steps, join point 0..n, <=3 poll rounds, 2 keys", "<=3 primary steps", q={"budget_s": 300}, t={"budget_s": 1800}),
+       "<=2 primary steps, join point 0..n, <=3 poll rounds, 2 keys", "<=3 primary steps", q={"budget_s": 300}, t={"budget_s": 900}),
 ], [SIMFS, CLOCK, HASH, BLOOM, JSON, RAND, LOG, TIERA, "the link is ideal: every message the primary sends is delivered in order, retransmission requests are served at once"],
    ["the 'within bounded time' clause", "the replica's timer-driven state machine, reconnect and restart timing", "TCP/gRPC behaviour", "codec internals"])
 
